@@ -25,7 +25,7 @@ ANCHORS = ["_decomposition.to_tt", "_decomposition.mat_to_tt", "_decomposition.r
 
 RANK_CHOP = "torchtt._decomposition.rank_chop"
 # the number of truncations: an order (a length) or an order minus one - whatever the local is called
-ORDER = r"len\([^()]*\)"
+ORDER = r"len\([A-Za-z_][\w.]*\)"      # the length of a named list (not of a filtered comprehension)
 SHARE = {"re:\\(" + ORDER + " - 1\\)": Fraction(-1, 2), "re:" + ORDER: Fraction(-1, 2)}
 
 
@@ -70,7 +70,14 @@ def allowance_sites(model: Model, fshort: str, share, eps_param="eps", rule="E4-
             if not ok:
                 bad = (m, why)
                 break
-        if opaque and not bad:
+        if opaque and not bad and any(_re.search(r"\b(sum|len)\(\[?.* for .* in .* if ", a) or "COUNT-IF(" in a for a in opaque[1]) \
+                and not any(v <= Fraction(-1, 2) and any(r.fullmatch(a) for r in known_re) for a, v in opaque[0].exps.items()):
+            # the share is a *filtered* count of modes: at most, and in general less than, the number of bonds - but every bond is truncated
+            obs.append(Ob(rule, k, VIOLATED, model.where(f, call), norm(call.args[1])[:120],
+                          f"threshold normalises to [{opaque[0].show()}]: the allowance is divided by a filtered count of the modes ({opaque[1]}), which is "
+                          "smaller than the number of bonds whenever a mode fails the filter, while every bond of the train is still truncated - the "
+                          "squared bond errors can add up to more than (eps*||A||)^2"))
+        elif opaque and not bad:
             obs.append(Ob(rule, k, ERROR, model.where(f, call), norm(call.args[1])[:120],
                           f"threshold normalises to [{opaque[0].show()}], which contains quantities the allowance analysis does not model "
                           f"({opaque[1]}): neither confirmed nor refuted"))
